@@ -9,7 +9,7 @@ import common
 import xref
 from common import Stats
 
-RS = ["{}", "_", "%", "XX", "{", "@@", "§", "→", "«»", "é", "日本", "{}", "{}"]
+RS = ["{}", "_", "%", "XX", "{", "@@", "§", "→", "«»", "é", "日本", "{}", "{}", "aab", "abab", "{{}"]
 WORDS = ["a", "b c", "x  y", "file name.txt", "-n", "--", "é ü", "a{}b", "{}", "_", "%", "XX", "1 2 3", "tab\there", "q", "*", "$HOME",
          # lines that are not valid UTF-8 (carried as surrogate escapes): "the entire line" means its bytes
          "caf\udce9", "\udcff\udcfe x", "a\udcc3", "\udce6\udc97 b"]
@@ -52,8 +52,12 @@ def gen_initial(rng, R):
             out.append("pre" + R + "post")
         elif k < 0.85:
             out.append(R + R)
-        else:
+        elif k < 0.93 or len(R) < 2:
             out.append(R + "-" + R + "/" + R)
+        else:
+            # R directly after a proper prefix of itself ({{}}, aaab for R = aab): the occurrence must still be found
+            pre = R[:rng.randint(1, len(R) - 1)]
+            out.append(rng.choice([pre + R, pre + R + R[-1:], "$" + pre + R + "}", pre + pre + R, R + pre + R]))
     return out
 
 
